@@ -198,7 +198,7 @@ fn declare(case: &IncCase, sb: &Sandbox) -> (Value, Option<Value>) {
         Some(e) => json!({"paths": ["src"], "extensions": e}),
     });
     if case.second_files {
-        input.push(json!({"paths": ["data/one.txt", "lib"]}));
+        input.push(json!({"paths": ["data/one.txt", "lib", ".env", "./.settings", "../shared/cfg.txt"]}));
     }
     if case.own_cmd {
         input.push(json!({"cmd_stdout": "cat v.txt"}));
@@ -282,6 +282,13 @@ pub fn build_world(case: &IncCase, tag: &str) -> Result<World, String> {
     sb.write("proj/src/.zinoma/cache.rs", b"inside a work dir\n");
     sb.write("proj/data/one.txt", b"one\n");
     sb.write("proj/lib/l.rs", b"lib\n");
+    // dotted and parent-relative declarations, each with an undeclared look-alike
+    sb.write("proj/.env", b"KEY=1\n");
+    sb.write("proj/env", b"look-alike of .env\n");
+    sb.write("proj/.settings/s.ini", b"[s]\n");
+    sb.write("proj/settings/s.ini", b"look-alike of .settings\n");
+    sb.write("shared/cfg.txt", b"shared cfg\n");
+    sb.write("proj/shared/cfg.txt", b"look-alike of ../shared\n");
     sb.write("proj/lib/big.bin", &file_content(7, "big"));
     sb.write("proj/v.txt", b"version-1\n");
     sb.write("proj/o.txt", b"output-1\n");
@@ -322,7 +329,17 @@ pub fn build_world(case: &IncCase, tag: &str) -> Result<World, String> {
         normalise_extensions(&ext_variant(case.src_ext)),
     )];
     if case.second_files {
-        input.push(MRes::Files(vec![canon.join("data/one.txt"), canon.join("lib")], None));
+        input.push(MRes::Files(
+            vec![
+                canon.join("data/one.txt"),
+                canon.join("lib"),
+                canon.join(".env"),
+                // declared paths are joined to the project directory as written
+                canon.join("./.settings"),
+                canon.join("../shared/cfg.txt"),
+            ],
+            None,
+        ));
     }
     if case.own_cmd {
         input.push(MRes::Cmd(canon.clone(), "cat v.txt".into()));
@@ -416,7 +433,7 @@ fn bump_mtime(p: &Path, counter: &mut i64) {
     set_mtime(p, 1_900_000_000 + *counter, (*counter * 7919) % 1_000_000_000);
 }
 
-pub const OPS: [&str; 24] = [
+pub const OPS: [&str; 26] = [
     "overwrite-same-length",
     "overwrite-restore-mtime",
     "append",
@@ -441,9 +458,11 @@ pub const OPS: [&str; 24] = [
     "rewrite-link-referent",
     "repoint-link",
     "touch-link-referent",
+    "edit-parent-relative-input",
+    "edit-dotted-look-alike",
 ];
 /// Operations that never change a declared resource.
-pub const NEUTRAL_OPS: [u8; 7] = [4, 9, 12, 13, 18, 19, 23];
+pub const NEUTRAL_OPS: [u8; 8] = [4, 9, 12, 13, 18, 19, 23, 25];
 
 /// Applies one edit against the current tree; returns a label (None = not applicable here).
 pub fn apply_edit(w: &World, case: &IncCase, op: u8, sel: u8, counter: &mut i64) -> Option<String> {
@@ -668,6 +687,23 @@ pub fn apply_edit(w: &World, case: &IncCase, op: u8, sel: u8, counter: &mut i64)
             std::os::unix::fs::symlink(next, &link).ok()?;
             // the newly named file has another content and another modification time
             bump_mtime(&std::fs::canonicalize(&link).ok()?, counter);
+        }
+        "edit-parent-relative-input" => {
+            if !case.second_files {
+                return None;
+            }
+            let p = w.root.parent()?.join("shared/cfg.txt");
+            std::fs::write(&p, format!("shared cfg {} {}\n", sel, counter)).ok()?;
+            bump_mtime(&p, counter);
+        }
+        "edit-dotted-look-alike" => {
+            // `env`, `settings/` and `<project>/shared/` are not `.env`, `.settings/`, `../shared/`
+            let p = match sel % 3 {
+                0 => w.root.join("env"),
+                1 => w.root.join("settings/s.ini"),
+                _ => w.root.join("shared/cfg.txt"),
+            };
+            std::fs::write(&p, format!("look-alike {}\n", sel)).ok()?;
         }
         "touch-non-matching" => {
             let p = w.root.join("data/unlisted.txt");
